@@ -16,14 +16,18 @@ Theorem C11_stream_event_changes_only_its_call :
 Proof. exact addressed_event_local. Qed.
 Print Assumptions C11_stream_event_changes_only_its_call.
 
-(* ... leaves the connection-level part unchanged when it is a peer frame ... *)
+(* ... leaves the connection-level part unchanged when it is a peer frame (the one exception: HEADERS
+   opening a stream towards a client are refused and released at once, and release_stream sets the
+   stream_close_waiter flag -- covered by the next theorem) ... *)
 Theorem C11_peer_stream_event_leaves_connection :
-  forall s e j, addr e = Some j -> is_h2 e = true -> st_conn (step s e) = st_conn s.
+  forall s e j, addr e = Some j -> is_h2 e = true ->
+  c_side (st_conn s) = Server \/ is_request e = false ->
+  st_conn (step s e) = st_conn s.
 Proof. exact peer_stream_event_conn. Qed.
 Print Assumptions C11_peer_stream_event_leaves_connection.
 
-(* ... and when it is a local action it can at most set the stream_close_waiter wake-up flag
-   (release_stream), which no step ever reads *)
+(* ... and in every case (local actions included) it can at most set the stream_close_waiter wake-up
+   flag (release_stream), which no step ever reads *)
 Theorem C11_local_action_leaves_connection :
   forall s e j, addr e = Some j ->
   st_conn (step s e) = st_conn s \/
@@ -130,16 +134,15 @@ Proof. exact tolerated_in_batch. Qed.
 Print Assumptions C11_tolerated_frame_in_batch.
 
 (* (10) the error branch, explicitly: process() lets an exception out (dropping the rest of the read)
-   exactly for a RequestReceived on a client connection (h2 DOES emit it for HEADERS opening an even
-   stream: finding D21, see (12)) and for a second StreamReset of a stream whose handler task was already
-   popped (h2 never emits two StreamResets for one stream; checked on every recorded trace) *)
+   exactly for a second StreamReset of a server stream whose handler task was already popped
+   (Handler.cancel: KeyError).  h2 never emits two StreamResets for one stream; the driver checks that on
+   every recorded trace.  RequestReceived on a client no longer raises (D21 repaired). *)
 Theorem C11_raising_events_exact :
   forall s e,
   raises s e = true <->
   c_closed (st_conn s) = false /\
-  ((exists i hs, e = ERequest i hs /\ c_side (st_conn s) = Client) \/
-   (exists i rm code c, e = EReset i rm code /\ c_side (st_conn s) = Server /\
-                        project i s = Some c /\ cs_in_tasks c = false)).
+  exists i rm code c, e = EReset i rm code /\ c_side (st_conn s) = Server /\
+                      project i s = Some c /\ cs_in_tasks c = false.
 Proof. exact raises_exactly. Qed.
 Print Assumptions C11_raising_events_exact.
 
@@ -155,36 +158,42 @@ Theorem C11_registry_keys_distinct :
 Proof. exact run_keeps_keys_distinct. Qed.
 Print Assumptions C11_registry_keys_distinct.
 
-(* (12) isolation inside one read (one data_received call).
-   FULL STATEMENT, which is FALSE of the code as it is:
-     forall i es1 e es2 s acc, addr e <> Some i -> fatal e = false ->
-       option_map strip (project i (fst (fst (run_batch (es1 ++ e :: es2) s acc)))) =
-       option_map strip (project i (fst (fst (run_batch (es1 ++ es2) s acc)))).
-   Refuted by HEADERS that open a stream towards a CLIENT (RequestReceived on a client connection:
-   Handler.accept raises NotImplementedError out of data_received; finding D21): the frames of the other
-   calls that follow in the same read are dropped.  The witness is replayed on the real code by
-   corpus/C11/d21_client_peer_opens_stream.json. *)
-Theorem C11_read_isolation_refuted :
-  exists i es1 e es2 s acc, addr e <> Some i /\ fatal e = false /\
-    option_map strip (project i (fst (fst (run_batch (es1 ++ e :: es2) s acc)))) <>
-    option_map strip (project i (fst (fst (run_batch (es1 ++ es2) s acc)))).
-Proof. exact read_isolation_refuted. Qed.
-Print Assumptions C11_read_isolation_refuted.
+(* (12) isolation inside one read (one data_received call): an event that is neither addressed to call i
+   nor fatal does not change what call i gets from that read.
+   On a client connection: for EVERY read, whatever the peer sends (full strength; D21 repaired) *)
+Theorem C11_client_never_raises :
+  forall es s, c_side (st_conn s) = Client -> no_raise es s = true.
+Proof. exact client_never_raises. Qed.
+Print Assumptions C11_client_never_raises.
 
-(* the strongest true form: whenever neither read contains a raising input (exactly characterised by
-   C11_raising_events_exact) ... *)
-Theorem C11_read_isolation_partial :
+Theorem C11_read_isolation_client :
+  forall i es1 e es2 s acc,
+  c_side (st_conn s) = Client -> addr e <> Some i -> fatal e = false ->
+  option_map strip (project i (fst (fst (run_batch (es1 ++ e :: es2) s acc)))) =
+  option_map strip (project i (fst (fst (run_batch (es1 ++ es2) s acc)))).
+Proof. exact read_isolation_client. Qed.
+Print Assumptions C11_read_isolation_client.
+
+(* On a server connection the KeyError of (10) must be excluded; the hypothesis is kept explicit and
+   static: every registered stream still has its handler task when the read starts, the read resets no
+   stream twice (what h2 guarantees), and contains no client-style registration *)
+Theorem C11_read_isolation_server :
+  forall i es1 e es2 s acc,
+  c_side (st_conn s) = Server -> all_in_tasks s ->
+  forallb (fun x => negb (is_register x)) (es1 ++ e :: es2) = true ->
+  NoDup (reset_ids (es1 ++ e :: es2)) ->
+  addr e <> Some i -> fatal e = false ->
+  option_map strip (project i (fst (fst (run_batch (es1 ++ e :: es2) s acc)))) =
+  option_map strip (project i (fst (fst (run_batch (es1 ++ es2) s acc)))).
+Proof. exact read_isolation_server. Qed.
+Print Assumptions C11_read_isolation_server.
+
+(* both are instances of: no raising input in either read *)
+Theorem C11_read_isolation :
   forall i es1 e es2 s acc,
   no_raise (es1 ++ e :: es2) s = true -> no_raise (es1 ++ es2) s = true ->
   addr e <> Some i -> fatal e = false ->
   option_map strip (project i (fst (fst (run_batch (es1 ++ e :: es2) s acc)))) =
   option_map strip (project i (fst (fst (run_batch (es1 ++ es2) s acc)))).
-Proof. exact read_isolation_partial. Qed.
-Print Assumptions C11_read_isolation_partial.
-
-(* ... which on a client connection is: the peer sends no HEADERS opening a stream *)
-Theorem C11_client_without_requests_never_raises :
-  forall es s, c_side (st_conn s) = Client -> forallb (fun e => negb (is_request e)) es = true ->
-  no_raise es s = true.
-Proof. exact client_without_requests_never_raises. Qed.
-Print Assumptions C11_client_without_requests_never_raises.
+Proof. exact read_isolation. Qed.
+Print Assumptions C11_read_isolation.
